@@ -46,16 +46,16 @@ Proof.
   - destruct s; cbn [opt_skip]; [now rewrite skip_spec_l|reflexivity].
 Qed.
 
-Lemma cypher_window_l ord s n rows : window_query Cypher ord s n rows = window_spec ord s n rows.
-Proof. unfold window_query, window_spec. rewrite opt_skip_limit_rows by apply scan_wf. now rewrite scan_rows. Qed.
+Lemma cypher_window_l ord s n rows : window_query_pre Cypher ord s n rows = window_spec ord s n rows.
+Proof. unfold window_query_pre, window_spec. rewrite opt_skip_limit_rows by apply scan_wf. now rewrite scan_rows. Qed.
 
-Lemma gql_window_unordered_l s n rows : window_query Gql false s n rows = window_spec false s n rows.
-Proof. unfold window_query, window_spec, sort_if. rewrite opt_skip_limit_rows by apply scan_wf. now rewrite scan_rows. Qed.
-Lemma gql_window_whole_l ord rows : window_query Gql ord None None rows = window_spec ord None None rows.
-Proof. unfold window_query, window_spec. cbn [opt_skip opt_limit]. now rewrite scan_rows. Qed.
+Lemma gql_window_unordered_l s n rows : window_query_pre Gql false s n rows = window_spec false s n rows.
+Proof. unfold window_query_pre, window_spec, sort_if. rewrite opt_skip_limit_rows by apply scan_wf. now rewrite scan_rows. Qed.
+Lemma gql_window_whole_l ord rows : window_query_pre Gql ord None None rows = window_spec ord None None rows.
+Proof. unfold window_query_pre, window_spec. cbn [opt_skip opt_limit]. now rewrite scan_rows. Qed.
 
 Lemma gql_window_refuted_l : exists ord s n rows,
-  window_query Gql ord s n rows <> window_spec ord s n rows.
+  window_query_pre Gql ord s n rows <> window_spec ord s n rows.
 Proof. exists true, None, (Some 1), [[VInt 3]; [VInt 1]; [VInt 2]]. vm_compute. discriminate. Qed.
 
 (** * count *)
@@ -64,21 +64,21 @@ Lemma count_rows_nonnull rows : Forall (fun r => nonnull_at 0 r = true) rows ->
 Proof. induction 1 as [|r t H _ IH]; [reflexivity|]. cbn [filter]. rewrite H. cbn [length]. now rewrite IH. Qed.
 
 Lemma cypher_count_l s n rows : Forall (fun r => nonnull_at 0 r = true) rows ->
-  count_query Cypher s n rows = count_spec s n rows.
+  count_query_pre Cypher s n rows = count_spec s n rows.
 Proof.
-  intros H. unfold count_query, count_spec, window_spec, sort_if.
+  intros H. unfold count_query_pre, count_spec, window_spec, sort_if.
   assert (W : Forall chunk_wf (drain_simple_agg [AggCount 0%nat] (scan_chunks rows))).
   { unfold drain_simple_agg, fuel_of. cbn [drain_st simple_agg_next]. repeat constructor. }
   rewrite opt_skip_limit_rows by exact W. now rewrite count_col_l, scan_rows, count_rows_nonnull.
 Qed.
 Lemma gql_count_whole_l rows : Forall (fun r => nonnull_at 0 r = true) rows ->
-  count_query Gql None None rows = count_spec None None rows.
+  count_query_pre Gql None None rows = count_spec None None rows.
 Proof.
-  intros H. unfold count_query, count_spec, window_spec, sort_if. cbn [opt_skip opt_limit].
+  intros H. unfold count_query_pre, count_spec, window_spec, sort_if. cbn [opt_skip opt_limit].
   now rewrite count_col_l, scan_rows, count_rows_nonnull.
 Qed.
 Lemma gql_count_refuted_l : exists s n rows, Forall (fun r => nonnull_at 0 r = true) rows /\
-  count_query Gql s n rows <> count_spec s n rows.
+  count_query_pre Gql s n rows <> count_spec s n rows.
 Proof.
   exists None, (Some 1), [[VInt 0]; [VInt 1]; [VInt 2]]. split; [repeat constructor|].
   vm_compute. discriminate.
@@ -86,19 +86,19 @@ Qed.
 
 (** * DISTINCT *)
 Lemma with_distinct_l rows : with_distinct_query rows = dedup_from [] rows.
-Proof. unfold with_distinct_query. rewrite distinct_spec_l by apply scan_small. now rewrite scan_rows. Qed.
-Lemma return_distinct_ignored_l rows : return_distinct_query rows = rows.
+Proof. unfold with_distinct_query. rewrite distinct_fix_spec_l. now rewrite scan_rows. Qed.
+Lemma return_distinct_ignored_l rows : return_distinct_query_pre rows = rows.
 Proof. apply scan_rows. Qed.
-Lemma return_distinct_refuted_l : exists rows, return_distinct_query rows <> dedup_from [] rows.
+Lemma return_distinct_refuted_l : exists rows, return_distinct_query_pre rows <> dedup_from [] rows.
 Proof. exists [[VInt 1]; [VInt 1]]. vm_compute. discriminate. Qed.
 
-(** * the proposed repairs of C11-K2 / C11-K3 meet the specification *)
-Lemma window_fix_l l ord s n rows : window_query_fix l ord s n rows = window_spec ord s n rows.
+(** * the wiring as it is now (ce12a2a, 36a1196) meets the specification in every language *)
+Lemma window_fix_l l ord s n rows : window_query l ord s n rows = window_spec ord s n rows.
 Proof. apply cypher_window_l. Qed.
 Lemma count_fix_l l s n rows : Forall (fun r => nonnull_at 0 r = true) rows ->
-  count_query_fix l s n rows = count_spec s n rows.
+  count_query l s n rows = count_spec s n rows.
 Proof. apply cypher_count_l. Qed.
-Lemma return_distinct_fix_l rows : return_distinct_query_fix rows = dedup_from [] rows.
+Lemma return_distinct_fix_l rows : return_distinct_query rows = dedup_from [] rows.
 Proof. apply with_distinct_l. Qed.
 
 (** * refutation witnesses for the operators *)
@@ -129,7 +129,7 @@ Lemma stacked_filter_l fa envf p1 p2 cs :
 Proof. now rewrite !filter_spec_l. Qed.
 
 Lemma distinct_overflow_refuted_l : exists cs, Forall chunk_wf cs /\
-  rows_of (drain_distinct cs) <> dedup_from [] (rows_of cs).
+  rows_of (drain_distinct_pre cs) <> dedup_from [] (rows_of cs).
 Proof.
   exists [mkChunk (int_rows 2049) None]. split; [repeat constructor|].
   intros H. apply (f_equal (@length row)) in H. vm_compute in H. discriminate H.
@@ -173,22 +173,10 @@ Proof.
 Qed.
 
 (** * clauses in order: WHERE, DISTINCT, SKIP, LIMIT stacked on one input *)
-Lemma distinct_out_wf cs : Forall small_chunk cs -> Forall chunk_wf (drain_distinct cs).
-Proof.
-  intros W. unfold drain_distinct.
-  apply (drain_st_all distinct_next (fun _ cs => Forall small_chunk cs) (fun seen cs => dedup_from seen (rows_of cs))).
-  - intros seen cs0 c seen' rest W0 H. destruct (distinct_next_some _ _ _ _ _ W0 H) as (A & B & C). auto.
-  - intros seen cs0. revert seen. induction cs0 as [|c0 rest0 IH]; intros seen c seen' rest W0; [discriminate|].
-    cbn [distinct_next]. destruct (distinct_chunk 2048 (lrows c0) seen) as [o s] eqn:E. destruct o as [|r o].
-    + inversion W0; subst. eauto.
-    + intros H. injection H as <- _ _. exact I.
-  - exact W.
-Qed.
-Lemma clauses_in_order_l fa envf p s n cs : Forall small_chunk cs ->
+Lemma clauses_in_order_l fa envf p s n cs :
   rows_of (drain_limit n (drain_skip s (drain_distinct (drain_filter fa envf p cs))))
   = firstn (Z.to_nat n) (skipn (Z.to_nat s) (dedup_from [] (filter (row_passes fa envf p) (rows_of cs)))).
 Proof.
-  intros W. pose proof (filter_out_small fa envf p cs W) as W1.
-  rewrite skip_limit_spec_l by (apply distinct_out_wf, W1).
-  now rewrite distinct_spec_l, filter_spec_l by exact W1.
+  rewrite skip_limit_spec_l by apply distinct_out_wf_l.
+  now rewrite distinct_fix_spec_l, filter_spec_l.
 Qed.
